@@ -23,6 +23,33 @@ CHECKS = {
    note="Decides argument binding only; whether a bound argument is then honoured or ignored is not decided by this part. Installed library versions only."),
 }
 
+CHECKS.update({
+ "C04": dict(level="translation_validation", design="DESIGN 5/C04, 3.3",
+   technique="translation validation: z3 per-element equivalence of the symbolic-shape export evaluated at each point of a binding lattice",
+   text="Programs exported with named dimensions (registry _dynamic testcases and a generated family with dimension arithmetic: products, sums, floor division, modulo, slicing/arange by dims, reshape round trips) are evaluated symbolically with the symbols bound to each lattice point (1, equal, unequal, primes) and compared for all element values with the JAX callable traced at that size. Shape arithmetic nodes (Shape/Gather/Mul/Add/Div/Mod...) run inside the ONNX evaluator with exact integer semantics.",
+   note="The `all bindings` quantifier is decided for lattice points only (quick 5, thorough 10 bindings); element values are universally quantified by the solver. Same abstractions as C01."),
+ "C06": dict(level="translation_validation", design="DESIGN 5/C06",
+   technique="translation validation with If/Loop semantics: z3 chooses predicate values and trip counts (bounded unrolling with unwinding assumption)",
+   text="cond/switch/while_loop/fori_loop/scan programs whose predicates, bounds and data are model inputs are executed symbolically on both sides: If becomes ite over the symbolic predicate, data-dependent Loop/while are unrolled K times with alive-guards and the unwinding assumption on both sides, scans of length 0..3 exactly. z3 decides equality of carried values and stacked outputs for every input, i.e. for every branch choice and trip count within K.",
+   note="K=4 quick / 8 thorough; scan length <= 64; state tensors small. Export-time rejection (reverse scan, 3-way switch, dynamic fori) is accepted as the rejection half."),
+ "C07": dict(level="translation_validation", design="DESIGN 5/C07",
+   technique="translation validation with FunctionProto inlining; call-site pairs differing in one attribute make wrong sharing a satisfiable difference",
+   text="Programs with @onnx_function boundaries (plain functions, nnx modules, unique=True, nested, input_params) and pairs of call sites that differ in exactly one of weights / static float / static str / kwarg / shape / dtype / instance, in both call orders, are exported; call nodes are interpreted by inlining the function body; z3 decides equivalence with JAX for all inputs. Arity mismatches and undefined callees make the model invalid and are reported.",
+   note="Enumerated placements; hash collisions of captured bytes and id() reuse are outside the claim."),
+ "C10": dict(level="translation_validation", design="DESIGN 5/C10",
+   technique="translation validation of T(f) for T in vmap/jit/grad/jvp/vjp/checkpoint/custom_jvp/custom_vjp against the un-patched jaxpr of T(f)",
+   text="For ~40 base callables and 13 transformations the transformed function is exported (so the substitute primitives' batching/differentiation rules run) and compared for all inputs with the jaxpr JAX produces for T(f) without converter patches (JAX's own rules are the oracle).",
+   note="vmap axis size 2, 3 input elements; Real-arithmetic abstraction."),
+ "C12": dict(level="translation_validation", design="DESIGN 5/C12",
+   technique="translation validation under layout flags: z3 equivalence of flagged export fed the NCHW permutation vs permuted JAX result; CrossHair on _validate_layout_indices",
+   text="For conv-free 4-D programs and every subset of flagged inputs/outputs (dims 2,3,4,5 pairwise distinct so a wrong permutation cannot hide) the flagged model evaluated on P.x must equal P.(reference) for all x; non-flagged IO identical. CrossHair symbolically executes the real _validate_layout_indices: returns exactly the input iff entries are distinct in-range ints, rejects bools.",
+   note="<=2 inputs/outputs; Conv outside the bound unless tiny."),
+ "C16": dict(level="translation_validation", design="DESIGN 5/C16",
+   technique="fault injection at every optimizer pass boundary + translation validation (z3) of the returned model; `raises or proved equivalent` for unsupported constructs",
+   text="For every pass index k the real optimize_graph runs with pass k raising (entry k of _OPTIMIZER_PASSES replaced); under the default policy the returned, partially optimized model must be equivalent to the callable for all inputs (C01 query); under the strict setting the exception must propagate. Unsupported constructs (unregistered primitive, 3-way switch, reverse scan, dynamic fori bounds, dim expression without origin, ...) at top level, inside cond/while/scan bodies and inside @onnx_function bodies must raise or be proved equivalent.",
+   note="Crash points = pass boundaries; 15 programs x 18 passes quick."),
+})
+
 for _k in ("C17", "C18", "C19"):
     CHECKS[_k]["engine"] = "E1"
 
